@@ -435,10 +435,11 @@ mod n {
     fn n_c09_n50() {
         drive(
             "C09.n50",
-            "N50Data::from(&EnergyProps): 2 walls each over 4 boundary kinds x in/out x multiplier {1,2} x net area {0,10}; 2 windows each over host {wall0,wall1,dangling} x construction {C=27, C=9, missing}; volume {0,250}; blower-door result {none,3.0}; C_o {16,29}",
+            "N50Data::from(&EnergyProps): 2 walls each over 4 boundary kinds x in/out x multiplier {1,2} x net area {0,10}; 2 windows each over host {wall0,wall1,dangling} x construction {C=27, C=9, missing}; volume {0,250}; blower-door result {none,3.0,0.05}; C_o {16,29}",
             |c| {
                 let vol = c.of(&[0.0f32, 250.0]);
-                let test = c.of(&[None, Some(3.0f32)]);
+                // (0.05 is below what the windows alone leak: the wall permeability solving the equation is then negative)
+                let test = c.of(&[None, Some(3.0f32), Some(0.05f32)]);
                 let c_o = c.of(&[16.0f32, 29.0]);
                 let mut g = globals();
                 g.vol_env_net = vol;
